@@ -78,6 +78,13 @@ def chain(op, very_long=False):
         k = r.choice([r.randint(3, 5), r.randint(6, 12), r.randint(13, 34)])
         if very_long:
             k = r.choice([65, 127, 128, 129, 150, 255, 256, 257, 300, 513])
+        if very_long:
+            # every operand a distinct feature (operands lost from a rule over repeated names would not change
+            # its meaning): k fresh optional leaves under the root
+            fresh = [f"Vl{j}x{len(spec['ctcs'])}" for j in range(k)]
+            for nm in fresh:
+                spec["root"].setdefault("rels", []).append({"min": 0, "max": 1, "children": [{"name": nm, "rels": []}]})
+            names = fresh
         xs = [names[j % len(names)] for j in range(k)]
         r.shuffle(xs)
         t = xs[0]
@@ -277,7 +284,8 @@ def run_shard(desc, acc):
                     knobs = set()
                 else:
                     knobs = {k for k in ks if r.random() < 0.35}
-                if any(t.startswith("ctc:chain") for t in tags) and fmt in ("fide", "glencoe") and r.random() < 0.8:
+                if any(t.startswith("ctc:chain") for t in tags) and fmt in ("fide", "glencoe") and (
+                        r.random() < 0.8 or any("very-long" in t for t in tags)):
                     knobs = set(knobs) | {"nary"}     # long chains are what other tools write as ONE n-ary rule
                 if "no-constraints" in knobs:
                     spec["ctcs"] = []
